@@ -297,6 +297,12 @@ def check(case: dict[str, Any], rec: Any) -> None:
                     # third pass: every primary that has a fallback reads as missing -> its fallback formula is used
                     val = _evaluate(eng, values, rec, fail_primaries=(fb == "primaries-failed"))
                 except Exception as e:  # pylint: disable=broad-except
+                    from ..common import HarnessError, raised_in_repo
+
+                    if not raised_in_repo(e):
+                        # the harness reaches into private names of the formula steps; if they are gone (refactoring)
+                        # this check cannot observe anything: inconclusive, not a violation
+                        raise HarnessError(f"{type(e).__name__}: {e}") from e
                     rec.violation("formula-generation-or-evaluation-raised", {**w, "error": f"{type(e).__name__}: {e}"[:300]})
                     continue
                 rec.count("formulas_evaluated")
